@@ -10,6 +10,7 @@ package c06
 import (
 	"fmt"
 	"math/rand/v2"
+	"strings"
 
 	"verif/harness/lib"
 
@@ -315,8 +316,12 @@ func mismatchedSize(rng *rand.Rand, size int64) int64 {
 
 // build instantiates the shape with fresh contents. mis >= 0 makes the
 // reference with that index (construction order) state another size than the
-// blob really has.
-func build(sh *shape, tag string, rng *rand.Rand, mis int) *instance {
+// blob really has. ov (may be nil) fixes the exact size of the blob behind a
+// reference index: fresh content of that size for files / tree files /
+// stdout / stderr; a Tree blob is padded (name of its marker node) up to the
+// size, which must not be below its natural size - the caller verifies the
+// size actually reached.
+func build(sh *shape, tag string, rng *rand.Rand, mis int, ov map[int]int) *instance {
 	in := &instance{tag: tag, key: lib.RandHash(rng), keySize: int64(1 + rng.IntN(500)), inline: map[string][]byte{}}
 	pending := 0
 	mk := func(class, where string, dir int, content []byte) int {
@@ -330,11 +335,16 @@ func build(sh *shape, tag string, rng *rand.Rand, mis int) *instance {
 		return len(in.refs) - 1
 	}
 	blob := func(size int, empty bool, where string) []byte {
+		if want, ok := ov[len(in.refs)]; ok {
+			// the reference about to be created gets a blob of exactly this size
+			return lib.GenBlob(rng, want, "random", tag+"/"+where)
+		}
 		if empty {
 			return []byte{}
 		}
 		return lib.GenBlob(rng, size, lib.Pick(rng, lib.ContentKinds), tag+"/"+where)
 	}
+	overridden := func() bool { _, ok := ov[len(in.refs)]; return ok }
 	applyMis := func(i int) {
 		if i == mis {
 			in.refs[i].Stated = mismatchedSize(rng, in.refs[i].Size)
@@ -346,8 +356,10 @@ func build(sh *shape, tag string, rng *rand.Rand, mis int) *instance {
 	for i, f := range sh.files {
 		where := fmt.Sprintf("output_files[%d]", i)
 		var content []byte
-		if f.dupOf >= 0 {
+		if f.dupOf >= 0 && (f.inline || !overridden()) {
 			content = fileContents[f.dupOf]
+		} else if f.inline {
+			content = lib.GenBlob(rng, f.size, lib.Pick(rng, lib.ContentKinds), tag+"/"+where)
 		} else {
 			content = blob(f.size, f.empty, where)
 		}
@@ -374,7 +386,7 @@ func build(sh *shape, tag string, rng *rand.Rand, mis int) *instance {
 				if !f.noDigest {
 					w := fmt.Sprintf("%s.files[%d]", where, k)
 					var content []byte
-					if f.dupFile >= 0 && f.dupFile < len(fileContents) {
+					if f.dupFile >= 0 && f.dupFile < len(fileContents) && !overridden() {
 						content = fileContents[f.dupFile]
 					} else {
 						content = blob(f.size, f.empty, w)
@@ -414,18 +426,39 @@ func build(sh *shape, tag string, rng *rand.Rand, mis int) *instance {
 		} else if len(children) > 0 {
 			children[0].Symlinks = append(children[0].Symlinks, mark)
 		}
-		// honest digests of the child Directory messages, deepest first
-		// (children are appended parent-before-child, so walk backwards)
-		for ci := len(children) - 1; ci >= 0; ci-- {
-			b, _ := proto.Marshal(children[ci])
-			dg := lib.DigestOf(b)
-			childDigests[ci].Hash, childDigests[ci].SizeBytes = dg.Hash, dg.SizeBytes
-		}
 		tree.Root = rootDir
 		tree.Children = children
-		tb, err := proto.Marshal(tree)
-		if err != nil {
-			panic(err)
+		finish := func() []byte {
+			// honest digests of the child Directory messages, deepest first
+			// (children are appended parent-before-child, so walk backwards)
+			for ci := len(children) - 1; ci >= 0; ci-- {
+				b, _ := proto.Marshal(children[ci])
+				dg := lib.DigestOf(b)
+				childDigests[ci].Hash, childDigests[ci].SizeBytes = dg.Hash, dg.SizeBytes
+			}
+			b, err := proto.Marshal(tree)
+			if err != nil {
+				panic(err)
+			}
+			return b
+		}
+		tb := finish()
+		if want, ok := ov[ti]; ok && (rootDir != nil || len(children) > 0) {
+			// pad the marker's name until the Tree blob has exactly the wanted
+			// size (length prefixes may grow by a byte: iterate)
+			base := mark.Name
+			pad := 0
+			for it := 0; it < 8 && len(tb) != want; it++ {
+				pad += want - len(tb)
+				if pad < 0 {
+					pad = 0
+					mark.Name = base
+					tb = finish()
+					break
+				}
+				mark.Name = base + "-" + strings.Repeat("p", pad)
+				tb = finish()
+			}
 		}
 		in.trees = append(in.trees, tree)
 		in.treeBlobs = append(in.treeBlobs, tb)
